@@ -24,7 +24,11 @@ Lemma sum_tok_app a b p n : sum_tok (a ++ b) p n = sum_tok a p n + sum_tok b p n
 Proof. unfold sum_tok. now rewrite map_app, sum_content_app. Qed.
 Lemma sum_coin_cons v l : sum_coin (v :: l) = coin v + sum_coin l.
 Proof. reflexivity. Qed.
+Lemma sum_coin_single v : sum_coin [v] = coin v.
+Proof. unfold sum_coin. cbn [map]. rewrite Zsum_cons. change (Zsum []) with 0. lia. Qed.
 Lemma sum_tok_cons v l p n : sum_tok (v :: l) p n = content (massets v) p n + sum_tok l p n.
+Proof. reflexivity. Qed.
+Lemma sum_content_nil p n : sum_content [] p n = 0.
 Proof. reflexivity. Qed.
 Lemma sum_content_cons m l p n : sum_content (m :: l) p n = content m p n + sum_content l p n.
 Proof. reflexivity. Qed.
@@ -112,8 +116,9 @@ Theorem key_deposit_spec kd pd initial certs :
   let pp := mkParams kd pd (fun _ => negb initial) in
   total_key_deposit kd pd initial certs = deposits pp certs - refunds pp certs.
 Proof.
-  intros pp. unfold total_key_deposit. change (kd_val kd pd (fold_left (kd_step kd initial) certs (mkAcc 0 0 0 [])) = deposits pp certs - refunds pp certs).
-  rewrite kd_fold. unfold kd_val, deposits. cbn. lia.
+  intros pp. pose proof (kd_fold kd pd initial certs (mkAcc 0 0 0 [])) as H. cbv zeta in H.
+  unfold kd_val in H. cbn [k_count k_explicit k_refund k_pools length Z.of_nat] in H.
+  unfold total_key_deposit, deposits. subst pp. lia.
 Qed.
 
 Lemma proposal_deposit_spec props : total_proposal_deposit props = Zsum props.
@@ -129,19 +134,15 @@ Lemma fold_v_add_spec l : forall acc, wfv acc -> Forall wfv l ->
   /\ wfv (fold_left v_add l acc).
 Proof.
   induction l as [|v l IH]; intros acc Wa Wl; cbn [fold_left].
-  - repeat split; [unfold sum_coin; cbn; lia | intros; unfold sum_tok, sum_content; cbn; lia | exact Wa].
+  - split; [|split]; [unfold sum_coin; cbn; lia | intros; unfold sum_tok, sum_content; cbn; lia | exact Wa].
   - inversion Wl as [|? ? Wv Wl']; subst.
     destruct (v_add_spec acc v Wa Wv) as (C & M & _ & W).
     destruct (IH (v_add acc v) W Wl') as (C' & M' & W').
-    repeat split; [rewrite C', C, sum_coin_cons; lia | intros p n; rewrite M', M, sum_tok_cons; lia | exact W'].
+    split; [|split]; [rewrite C', C, sum_coin_cons; lia | intros p n; rewrite M', M, sum_tok_cons; lia | exact W'].
 Qed.
 
 (* ================================================================= _calc_change *)
 Definition covers (arr : list masset) (m : masset) : Prop := forall p n, sum_content arr p n = content m p n.
-
-Section CalcProofs.
-  Variable minada : value -> Z.
-  Variable pack : value -> option (list masset).
 
   Lemma wfv_requested fee outs : Forall wfv outs ->
     coin (requested fee outs) = fee + sum_coin outs
@@ -149,7 +150,7 @@ Section CalcProofs.
     /\ wfv (requested fee outs).
   Proof.
     intros W. unfold requested. destruct (fold_v_add_spec outs (mkValue fee []) (wfv_zero fee) W) as (C & M & Wr).
-    repeat split; [exact C | intros p n; rewrite M; reflexivity | exact Wr].
+    split; [|split]; [exact C | intros p n; rewrite M; reflexivity | exact Wr].
   Qed.
 
   Lemma wfv_provided st ins : Forall wfv ins -> wfm (b_mint st) ->
@@ -164,8 +165,8 @@ Section CalcProofs.
     set (p0 := fold_left v_add ins (mkValue 0 [])) in *.
     destruct (is_nil (b_mint st)) eqn:E.
     - destruct (b_mint st); [|discriminate]. cbn [coin massets].
-      repeat split; [rewrite fold_add_Zsum, C; cbn; lia | intros p n; rewrite M; cbn; lia | exact Wr].
-    - cbn [coin massets]. repeat split.
+      split; [|split]; [rewrite fold_add_Zsum, C; cbn; lia | intros p n; rewrite M; cbn; lia | exact Wr].
+    - cbn [coin massets]. split; [|split].
       + rewrite fold_add_Zsum, C. cbn. lia.
       + intros p n. rewrite m_add_content by (exact Wr || exact Wm). rewrite M. cbn. lia.
       + apply m_add_wfm. exact Wr.
@@ -192,13 +193,13 @@ Section CalcProofs.
     destruct (wfv_provided st ins Wi Wm) as (_ & _ & Wp).
     destruct (v_sub_spec _ _ Wp Wr) as (C & M & _ & Ws).
     unfold change_of. destruct (is_nil (massets (v_sub (provided st ins) (requested fee outs)))).
-    - repeat split; assumption.
-    - cbn [coin massets]. repeat split; [exact C | | apply m_filter_wfm; exact Ws].
+    - split; [|split]; assumption.
+    - cbn [coin massets]. split; [|split]; [exact C | | apply m_filter_wfm; exact Ws].
       intros p n. rewrite filter_pos_content; [apply M | exact Ws |]. rewrite M. specialize (Lm p n). lia.
   Qed.
 
   (* the loop hands out exactly the coin it was given and exactly the bundles of the packing *)
-  Lemma change_loop_sum respect : forall arr change chs, arr <> [] ->
+  Lemma change_loop_sum minada respect : forall arr change chs, arr <> [] ->
     change_loop minada respect arr change = inr chs ->
     sum_coin chs = coin change /\ map massets chs = arr.
   Proof.
@@ -206,7 +207,7 @@ Section CalcProofs.
     cbn [change_loop] in H.
     destruct ((coin change <? 0) || (respect && (coin change <? minada (mkValue 0 ma)))); [discriminate|].
     destruct rest as [|ma2 rest].
-    - cbn in H. inversion H; subst. cbn. split; [unfold sum_coin; cbn; lia | reflexivity].
+    - cbn in H. inversion H; subst. split; [rewrite sum_coin_single; reflexivity | reflexivity].
     - cbn [is_nil] in H.
       match type of H with context [change_loop minada respect (ma2 :: rest) ?c] =>
         destruct (change_loop minada respect (ma2 :: rest) c) as [e|l] eqn:E; [discriminate|];
@@ -215,6 +216,10 @@ Section CalcProofs.
       + rewrite sum_coin_cons, Ec. cbn. lia.
       + cbn. now rewrite Em.
   Qed.
+
+Section CalcProofs.
+  Variable minada : value -> Z.
+  Variable pack : value -> option (list masset).
 
   (* calc_change_sum: whenever _calc_change returns change outputs,
        - their ADA adds up to provided - requested exactly;
@@ -236,7 +241,7 @@ Section CalcProofs.
     set (ch := change_of st fee ins outs) in *.
     destruct (is_nil (massets ch)) eqn:E.
     - destruct (respect && (coin ch <? minada ch)); [discriminate|]. inversion H; subst.
-      split; [unfold sum_coin; cbn; lia|]. split; [intros _ arr X; discriminate|]. intros _ p n.
+      split; [rewrite sum_coin_single; cbn [coin]; lia|]. split; [intros _ arr X; discriminate|]. intros _ p n.
       rewrite <- M. destruct (massets ch); [|discriminate]. reflexivity.
     - destruct (pack ch) as [arr|] eqn:P; [|discriminate].
       apply change_loop_sum in H as [Hc Hm]; [|intros ->; now apply NE]. split; [lia|].
@@ -245,3 +250,350 @@ Section CalcProofs.
       + intros X p n. rewrite (X arr eq_refl eq_refl). apply M.
   Qed.
 End CalcProofs.
+
+(* ================================================================= _pack_tokens_for_change is a partition *)
+Lemma content_nil p n : content [] p n = 0.
+Proof. reflexivity. Qed.
+Lemma content_cons k a (m : masset) p n :
+  content ((k, a) :: m) p n = if bytes_eqb k p then aget a n else content m p n.
+Proof. unfold content. rewrite mget_cons. destruct (bytes_eqb k p); reflexivity. Qed.
+Lemma content_cons_notin k a (m : masset) p n : ~ In k (keys m) ->
+  content ((k, a) :: m) p n = (if bytes_eqb k p then aget a n else 0) + content m p n.
+Proof.
+  intros H. rewrite content_cons. destruct (bytes_eqb k p) eqn:E; [|lia].
+  apply bytes_eqb_eq in E. subst p. unfold content. rewrite (mget_notin m k H). cbn. lia.
+Qed.
+
+Lemma wfm_nil : wfm [].
+Proof. split; constructor. Qed.
+Lemma wfm_single p a : wfd a -> wfm [(p, a)].
+Proof.
+  intros W. split.
+  - unfold wfd. cbn. constructor; [intros []|constructor].
+  - constructor; [exact W|constructor].
+Qed.
+Lemma wfv_single p a : wfv (single p a).
+Proof. unfold single, wfv. cbn [massets]. apply m_add_wfm, wfm_nil. Qed.
+Lemma content_single p a p' n' : wfd a ->
+  content (massets (single p a)) p' n' = if bytes_eqb p p' then aget a n' else 0.
+Proof.
+  intros W. unfold single. cbn [massets]. rewrite m_add_content by (apply wfm_nil || now apply wfm_single).
+  rewrite content_nil, content_cons, content_nil. lia.
+Qed.
+Lemma wfd_one n (q : Z) : wfd [(n, q)].
+Proof. unfold wfd. cbn. constructor; [intros []|constructor]. Qed.
+Lemma aget_one n (q : Z) n' : aget [(n, q)] n' = if bytes_eqb n n' then q else 0.
+Proof. rewrite aget_cons. destruct (bytes_eqb n n'); reflexivity. Qed.
+
+Section PackProofs.
+  Variable ovf : value -> bool.
+
+  Lemma pack_assets_inv p : forall assets arr out temp old arr' out' temp' old',
+    wfd assets -> wfv out -> wfd temp -> Forall wfm arr ->
+    pack_assets ovf p assets arr out temp old = (arr', out', temp', old') ->
+    wfv out' /\ wfd temp' /\ Forall wfm arr' /\
+    forall p' n', sum_content arr' p' n' + content (massets out') p' n' + (if bytes_eqb p p' then aget temp' n' else 0)
+                = sum_content arr p' n' + content (massets out) p' n'
+                  + (if bytes_eqb p p' then aget temp n' + aget assets n' else 0).
+  Proof.
+    induction assets as [|[n q] r IH]; intros arr out temp old arr' out' temp' old' Wa Wo Wt Warr H.
+    - cbn in H. inversion H; subst. repeat split; try assumption; try apply Wo.
+      intros p' n'. rewrite aget_nil. destruct (bytes_eqb p p'); lia.
+    - inversion Wa as [|? ? Hn Hr]; subst. cbn [pack_assets] in H.
+      destruct (ovf (v_add (mkValue 0 [(p, a_add temp [(n, q)])]) out)).
+      + (* overflow: emit the current output (with the pending assets), start a fresh one *)
+        set (out1 := if is_nil temp then out else v_add out (single p temp)) in *.
+        assert (W1 : wfv out1).
+        { unfold out1. destruct (is_nil temp); [exact Wo|]. apply (v_add_spec out (single p temp) Wo (wfv_single p temp)). }
+        assert (C1 : forall p' n', content (massets out1) p' n'
+                                   = content (massets out) p' n' + (if bytes_eqb p p' then aget temp n' else 0)).
+        { intros p' n'. unfold out1. destruct (is_nil temp) eqn:E.
+          - destruct temp; [|discriminate]. rewrite aget_nil. destruct (bytes_eqb p p'); lia.
+          - destruct (v_add_spec out (single p temp) Wo (wfv_single p temp)) as (_ & M & _).
+            rewrite M, content_single by exact Wt. reflexivity. }
+        apply IH in H; [|exact Hr|apply wfv_zero|apply a_add_wfd; apply wfd_nil| ].
+        2:{ apply Forall_app. split; [exact Warr|]. constructor; [apply W1|constructor]. }
+        destruct H as (Wo' & Wt' & Warr' & S). repeat split; try assumption; try apply Wo'.
+        intros p' n'. rewrite S. rewrite sum_content_app, sum_content_cons. cbn [massets].
+        rewrite C1, content_nil, sum_content_nil.
+        rewrite a_add_get by (apply wfd_nil || apply wfd_one). rewrite aget_nil, aget_one, aget_cons.
+        destruct (bytes_eqb p p'); [|lia].
+        destruct (bytes_eqb n n') eqn:E; [|lia].
+        apply bytes_eqb_eq in E. subst n'. rewrite (aget_notin r n Hn). lia.
+      + apply IH in H; [|exact Hr|exact Wo|apply a_add_wfd; exact Wt|exact Warr].
+        destruct H as (Wo' & Wt' & Warr' & S). repeat split; try assumption; try apply Wo'.
+        intros p' n'. rewrite S. rewrite a_add_get by (exact Wt || apply wfd_one). rewrite aget_one, aget_cons.
+        destruct (bytes_eqb p p'); [|lia].
+        destruct (bytes_eqb n n') eqn:E; [|lia].
+        apply bytes_eqb_eq in E. subst n'. rewrite (aget_notin r n Hn). lia.
+  Qed.
+
+  Lemma pack_policies_cover : forall pols arr out res,
+    wfm pols -> wfv out -> Forall wfm arr ->
+    pack_policies ovf pols arr out = Some res ->
+    res <> [] /\ Forall wfm res /\
+    forall p' n', sum_content res p' n' = sum_content arr p' n' + content (massets out) p' n' + content pols p' n'.
+  Proof.
+    induction pols as [|[p assets] r IH]; intros arr out res Wp Wo Warr H.
+    - cbn in H. inversion H; subst. split; [destruct arr; discriminate|]. split.
+      + apply Forall_app. split; [exact Warr|]. constructor; [apply Wo|constructor].
+      + intros p' n'. rewrite sum_content_app, sum_content_cons, sum_content_nil, content_nil. lia.
+    - destruct Wp as [Wd Wf]. inversion Wd as [|? ? Hn Hr]; subst. inversion Wf as [|? ? Wa Wf']; subst. cbn in Wa.
+      cbn [pack_policies] in H.
+      destruct (pack_assets ovf p assets arr out [] out) as [[[arr1 out1] temp] old] eqn:E.
+      apply pack_assets_inv in E; [|exact Wa|exact Wo|apply wfd_nil|exact Warr].
+      destruct E as (Wo1 & Wt1 & Warr1 & S).
+      destruct (ovf (v_add out1 (single p temp))); [discriminate|].
+      destruct (v_add_spec out1 (single p temp) Wo1 (wfv_single p temp)) as (_ & M & _ & W2).
+      apply IH in H; [|split; assumption|exact W2|exact Warr1].
+      destruct H as (NE & Wres & S2). split; [exact NE|]. split; [exact Wres|].
+      intros p' n'. rewrite S2, M, content_single by exact Wt1.
+      rewrite (content_cons_notin p assets r p' n' Hn).
+      specialize (S p' n'). rewrite aget_nil in S. destruct (bytes_eqb p p'); lia.
+  Qed.
+
+  (* Whatever the size test answers: when _pack_tokens_for_change returns, the bundles it returns add up to
+     the change bundle exactly — nothing lost, nothing duplicated; there is at least one bundle. *)
+  Theorem pack_model_partition change arr : wfv change ->
+    pack_model ovf change = Some arr ->
+    arr <> [] /\ Forall wfm arr /\ covers arr (massets change).
+  Proof.
+    intros W H. unfold pack_model in H.
+    apply pack_policies_cover in H; [|exact W|apply wfv_zero|constructor].
+    destruct H as (NE & Wr & S). split; [exact NE|]. split; [exact Wr|].
+    intros p n. rewrite S. cbn [massets]. rewrite content_nil, sum_content_nil. lia.
+  Qed.
+End PackProofs.
+
+(* ================================================================= _merge_changes *)
+Lemma find_idx_bound : forall (outs : list output) i cur k,
+  (forall c, cur = Some c -> (c < i)%nat) -> find_idx i cur outs = Some k -> (k < i + length outs)%nat.
+Proof.
+  induction outs as [|[s v] r IH]; intros i cur k Hc H; cbn [find_idx] in H.
+  - subst cur. specialize (Hc k eq_refl). cbn. lia.
+  - apply IH in H; [cbn [length]; lia|].
+    intros c Ec. destruct s; [|specialize (Hc c Ec); lia].
+    destruct cur as [c0|]; [|inversion Ec; lia].
+    destruct (coin v =? 0); [inversion Ec; lia | specialize (Hc c Ec); lia].
+Qed.
+
+Lemma update_nth_add c : forall (outs : list output) i, wfv c -> Forall wfv (map snd outs) -> (i < length outs)%nat ->
+  sum_coin (map snd (update_nth i (fun v => v_add c v) outs)) = sum_coin (map snd outs) + coin c
+  /\ forall p n, sum_tok (map snd (update_nth i (fun v => v_add c v) outs)) p n
+                 = sum_tok (map snd outs) p n + content (massets c) p n.
+Proof.
+  induction outs as [|[s v] r IH]; intros i Wc Wo Hi; [cbn in Hi; lia|].
+  cbn [map snd] in Wo. inversion Wo as [|? ? Wv Wr]; subst.
+  destruct i as [|k]; cbn [update_nth map snd].
+  - destruct (v_add_spec c v Wc Wv) as (C & M & _).
+    split; [rewrite !sum_coin_cons, C; lia | intros p n; rewrite !sum_tok_cons, M; lia].
+  - cbn [length] in Hi. destruct (IH k Wc Wr ltac:(lia)) as [C M].
+    split; [rewrite !sum_coin_cons, C; lia | intros p n; rewrite !sum_tok_cons, M; lia].
+Qed.
+
+Lemma map_snd_true (chs : list value) : map snd (map (fun c : value => (true, c)) chs) = chs.
+Proof. induction chs as [|c r IH]; cbn; [reflexivity | now rewrite IH]. Qed.
+
+Lemma merge_changes_sum idx chs (outs : list output) :
+  (forall i, idx = Some i -> (i < length outs)%nat) -> Forall wfv chs -> Forall wfv (map snd outs) ->
+  sum_coin (map snd (merge_changes idx chs outs)) = sum_coin (map snd outs) + sum_coin chs
+  /\ forall p n, sum_tok (map snd (merge_changes idx chs outs)) p n = sum_tok (map snd outs) p n + sum_tok chs p n.
+Proof.
+  intros Hi Wc Wo. unfold merge_changes.
+  assert (App : sum_coin (map snd (outs ++ map (fun c => (true, c)) chs)) = sum_coin (map snd outs) + sum_coin chs
+                /\ forall p n, sum_tok (map snd (outs ++ map (fun c => (true, c)) chs)) p n
+                               = sum_tok (map snd outs) p n + sum_tok chs p n).
+  { rewrite map_app, map_snd_true. split; [apply sum_coin_app | intros; apply sum_tok_app]. }
+  destruct idx as [i|]; [|exact App].
+  destruct chs as [|c [|c2 r]]; try exact App.
+  inversion Wc as [|? ? Wc1 _]; subst.
+  destruct (update_nth_add c outs i Wc1 Wo (Hi i eq_refl)) as [C M].
+  split; [rewrite C, sum_coin_single; reflexivity|].
+  intros p n. rewrite M. unfold sum_tok at 3, sum_content. cbn [map]. rewrite Zsum_cons. change (Zsum []) with 0. lia.
+Qed.
+
+(* ================================================================= the body conserves value *)
+(* the ledger environment the builder assumes: its own protocol parameters, and
+   initial_stake_pool_registration = "none of the pools registered here is known to the chain" *)
+Definition ledger_params (st : bstate) : params := mkParams (b_kd st) (b_pd st) (fun _ => negb (b_initial st)).
+
+(* what the implementation's packing must satisfy at the change value it is applied to *)
+Definition pack_ok (pack : value -> option (list masset)) (v : value) : Prop :=
+  forall arr, pack v = Some arr -> arr <> [] /\ Forall wfm arr /\ covers arr (massets v).
+
+Section BodyProofs.
+  Variable minada : value -> Z.
+  Variable pack : value -> option (list masset).
+
+  Lemma calc_change_wf st respect fee ins outs chs :
+    Forall wfv ins -> Forall wfv outs -> wfm (b_mint st) ->
+    pack_ok pack (change_of st fee ins outs) ->
+    calc_change minada pack st respect fee ins outs = inr chs -> Forall wfv chs.
+  Proof.
+    intros Wi Wo Wm P H. unfold calc_change in H.
+    destruct (v_lt (requested fee outs) (provided st ins)); [|discriminate]. cbn [negb] in H.
+    set (ch := change_of st fee ins outs) in *.
+    destruct (is_nil (massets ch)).
+    - destruct (respect && (coin ch <? minada ch)); [discriminate|]. inversion H; subst.
+      constructor; [apply wfv_zero|constructor].
+    - destruct (pack ch) as [arr|] eqn:E; [|discriminate].
+      destruct (P arr E) as (NE & Wa & _).
+      apply (change_loop_sum minada respect arr ch chs NE) in H as [_ Hm].
+      rewrite <- Hm in Wa. clear -Wa. induction chs as [|c r IH]; [constructor|].
+      cbn in Wa. inversion Wa; subst. constructor; [assumption | now apply IH].
+  Qed.
+
+  (* one pass: outputs + change at fee f are balanced *)
+  Lemma pass_balanced st respect idx fee ins (outs : list output) chs :
+    Forall wfv ins -> Forall wfv (map snd outs) -> wfm (b_mint st) ->
+    (forall i, idx = Some i -> (i < length outs)%nat) ->
+    pack_ok pack (change_of st fee ins (map snd outs)) ->
+    calc_change minada pack st respect fee ins (map snd outs) = inr chs ->
+    Balanced (ledger_params st) ins (b_mint st) (b_wdrl st) (b_certs st) (b_props st) (b_donation st)
+             (map snd (merge_changes idx chs outs)) fee.
+  Proof.
+    intros Wi Wo Wm Hi P H.
+    pose proof (calc_change_wf st respect fee ins (map snd outs) chs Wi Wo Wm P H) as Wc.
+    assert (NE : pack (change_of st fee ins (map snd outs)) <> Some []).
+    { intros X. destruct (P [] X) as (N & _). now apply N. }
+    destruct (calc_change_sum minada pack st respect fee ins (map snd outs) chs Wi Wo Wm NE H) as [C T].
+    assert (T' : forall p n, sum_tok chs p n = content (massets (provided st ins)) p n
+                                               - content (massets (requested fee (map snd outs))) p n).
+    { apply T. intros arr _ E. apply (P arr E). }
+    destruct (merge_changes_sum idx chs outs Hi Wc Wo) as [MC MT].
+    destruct (wfv_requested fee (map snd outs) Wo) as (Rc & Rm & _).
+    destruct (wfv_provided st ins Wi Wm) as (Pc & Pm & _).
+    pose proof (key_deposit_spec (b_kd st) (b_pd st) (b_initial st) (b_certs st)) as KD. cbv zeta in KD.
+    fold (ledger_params st) in KD.
+    split.
+    - rewrite MC, C, Pc, Rc, KD, proposal_deposit_spec. lia.
+    - intros p n. rewrite MT, T', Pm, Rm. lia.
+  Qed.
+
+  Lemma find_idx_valid (outs : list output) i : find_idx 0 None outs = Some i -> (i < length outs)%nat.
+  Proof. intros H. apply find_idx_bound in H; [lia | intros c X; discriminate]. Qed.
+
+  (* _add_change_and_fee with the two fee estimates given *)
+  Theorem acf_with_balanced st merge ins (outs : list output) fee1 fee2 outs' fee' :
+    Forall wfv ins -> Forall wfv (map snd outs) -> wfm (b_mint st) ->
+    pack_ok pack (change_of st fee2 ins (map snd outs)) ->
+    acf_with minada pack st merge ins outs fee1 fee2 = inr (outs', fee') ->
+    Balanced (ledger_params st) ins (b_mint st) (b_wdrl st) (b_certs st) (b_props st) (b_donation st)
+             (map snd outs') fee'.
+  Proof.
+    intros Wi Wo Wm P H. unfold acf_with in H.
+    destruct (calc_change minada pack st (negb merge) fee1 ins (map snd outs)); [discriminate|].
+    destruct (calc_change minada pack st (negb merge) fee2 ins (map snd outs)) as [e|ch2] eqn:E2; [discriminate|].
+    inversion H; subst. eapply pass_balanced; try eassumption.
+    intros i Hi. destruct merge; [now apply find_idx_valid | discriminate].
+  Qed.
+
+  Lemma acf_est st merge ins (outs : list output) fee0 est r :
+    add_change_and_fee minada pack est st merge ins outs fee0 = inr r ->
+    exists fee1 fee2, acf_with minada pack st merge ins outs fee1 fee2 = inr r.
+  Proof.
+    unfold add_change_and_fee, acf_with. intros H.
+    destruct (calc_change minada pack st (negb merge) (est outs fee0) ins (map snd outs)) as [e|ch1] eqn:E1; [discriminate|].
+    exists (est outs fee0), (est (merge_changes (if merge then find_idx 0 None outs else None) ch1 outs) (est outs fee0)).
+    rewrite E1. exact H.
+  Qed.
+
+  (* for ANY fee estimator: what _add_change_and_fee leaves in the builder is balanced *)
+  Theorem acf_balanced est st merge ins (outs : list output) fee0 outs' fee' :
+    Forall wfv ins -> Forall wfv (map snd outs) -> wfm (b_mint st) ->
+    (forall fee, pack_ok pack (change_of st fee ins (map snd outs))) ->
+    add_change_and_fee minada pack est st merge ins outs fee0 = inr (outs', fee') ->
+    Balanced (ledger_params st) ins (b_mint st) (b_wdrl st) (b_certs st) (b_props st) (b_donation st)
+             (map snd outs') fee'.
+  Proof.
+    intros Wi Wo Wm P H. apply acf_est in H as (f1 & f2 & H).
+    eapply acf_with_balanced; try eassumption. apply P.
+  Qed.
+End BodyProofs.
+
+(* ---- the returned body: inputs are an ordered SET of transaction inputs, resolved through the UTxO map ---- *)
+Lemma txin_eqb_eq a b : txin_eqb a b = true <-> a = b.
+Proof.
+  destruct a as [t i], b as [t' i']. unfold txin_eqb. cbn. rewrite andb_true_iff, bytes_eqb_eq, N.eqb_eq.
+  split; [intros [-> ->]; reflexivity | intros H; inversion H; auto].
+Qed.
+
+Lemma dedup_txins_nodup l : NoDup l -> dedup_txins l = l.
+Proof.
+  unfold dedup_txins. intros H.
+  assert (G : forall acc, NoDup (acc ++ l) ->
+              fold_left (fun acc i => if existsb (txin_eqb i) acc then acc else acc ++ [i]) l acc = acc ++ l).
+  { clear H. induction l as [|x l IH]; intros acc N; cbn [fold_left]; [now rewrite app_nil_r|].
+    destruct (existsb (txin_eqb x) acc) eqn:E.
+    - apply existsb_exists in E as (y & Hy & Ey). apply txin_eqb_eq in Ey. subst y.
+      exfalso. apply NoDup_remove_2 in N. apply N. apply in_or_app. now left.
+    - rewrite IH; rewrite <- app_assoc; [reflexivity | exact N]. }
+  apply (G []). exact H.
+Qed.
+
+(* build () after selection: self.inputs = ins; _add_change_and_fee; _build_tx_body *)
+Definition build_tail (minada : value -> Z) (pack : value -> option (list masset)) (est : list output -> Z -> Z)
+           (st : bstate) (merge : bool) (ins : list utxo) (outs : list output) (fee0 : Z)
+  : cc_err + (list (bytes * N) * list output * Z) :=
+  match add_change_and_fee minada pack est st merge (map u_val ins) outs fee0 with
+  | inl e => inl e
+  | inr (outs', fee') => inr (dedup_txins (map u_in ins), outs', fee')
+  end.
+
+Fixpoint resolve_all (m : list utxo) (l : list (bytes * N)) : option (list value) :=
+  match l with
+  | [] => Some []
+  | i :: r => match resolve m i, resolve_all m r with
+              | Some v, Some vs => Some (v :: vs)
+              | _, _ => None
+              end
+  end.
+
+Lemma resolve_all_map m ins : (forall u, In u ins -> resolve m (u_in u) = Some (u_val u)) ->
+  resolve_all m (map u_in ins) = Some (map u_val ins).
+Proof.
+  induction ins as [|u r IH]; intros H; [reflexivity|]. cbn [map resolve_all].
+  rewrite (H u (or_introl eq_refl)), IH; [reflexivity|]. intros u' Hu. apply H. now right.
+Qed.
+
+(* C06_balanced: the body returned by build (), with its inputs resolved through the chain's UTxO map,
+   satisfies the ledger balance equation — for every builder state, every selection result `ins` whose
+   transaction inputs are pairwise distinct and known to the chain with the amounts the builder saw,
+   every fee estimator, every min-ADA function, every packing that is a partition *)
+Theorem build_tail_balanced minada pack est st merge ins outs fee0 umap bins outs' fee' :
+  Forall wfv (map u_val ins) -> Forall wfv (map snd outs) -> wfm (b_mint st) ->
+  NoDup (map u_in ins) ->
+  (forall u, In u ins -> resolve umap (u_in u) = Some (u_val u)) ->
+  (forall fee, pack_ok pack (change_of st fee (map u_val ins) (map snd outs))) ->
+  build_tail minada pack est st merge ins outs fee0 = inr (bins, outs', fee') ->
+  exists vals, resolve_all umap bins = Some vals
+    /\ balanced (ledger_params st) vals (b_mint st) (b_wdrl st) (b_certs st) (b_props st) (b_donation st)
+                (map snd outs') fee' = true.
+Proof.
+  intros Wi Wo Wm ND R P H. unfold build_tail in H.
+  destruct (add_change_and_fee minada pack est st merge (map u_val ins) outs fee0) as [e|[o f]] eqn:E; [discriminate|].
+  inversion H; subst. exists (map u_val ins). split.
+  - rewrite dedup_txins_nodup by exact ND. now apply resolve_all_map.
+  - apply balanced_iff. eapply acf_balanced; eassumption.
+Qed.
+
+(* with the modelled packing the partition premise is a theorem *)
+Corollary build_tail_balanced_pack ovf minada est st merge ins outs fee0 umap bins outs' fee' :
+  Forall wfv (map u_val ins) -> Forall wfv (map snd outs) -> wfm (b_mint st) ->
+  NoDup (map u_in ins) ->
+  (forall u, In u ins -> resolve umap (u_in u) = Some (u_val u)) ->
+  build_tail minada (pack_model ovf) est st merge ins outs fee0 = inr (bins, outs', fee') ->
+  exists vals, resolve_all umap bins = Some vals
+    /\ balanced (ledger_params st) vals (b_mint st) (b_wdrl st) (b_certs st) (b_props st) (b_donation st)
+                (map snd outs') fee' = true.
+Proof.
+  intros Wi Wo Wm ND R H. eapply build_tail_balanced; try eassumption.
+  intros fee arr E. apply (pack_model_partition ovf _ arr); [|exact E].
+  (* the change value is well-formed *)
+  unfold change_of.
+  destruct (wfv_requested fee (map snd outs) Wo) as (_ & _ & Wr).
+  destruct (wfv_provided st (map u_val ins) Wi Wm) as (_ & _ & Wp).
+  destruct (v_sub_spec _ _ Wp Wr) as (_ & _ & _ & Ws).
+  destruct (is_nil (massets (v_sub (provided st (map u_val ins)) (requested fee (map snd outs))))); [exact Ws|].
+  apply m_filter_wfm. exact Ws.
+Qed.
